@@ -421,7 +421,7 @@ class DynamicalMatrixNAC(DynamicalMatrix):
     @property
     def nac_factor(self):
         """Return NAC unit conversion factor."""
-        return self._unit_conversion * 4.0 * np.pi / self._pcell.volume
+        return self._unit_conversion * 4.0 * np.pi / abs(self._pcell.volume)
 
     def get_nac_factor(self):
         """Return NAC unit conversion factor."""
@@ -632,7 +632,7 @@ class DynamicalMatrixGL(DynamicalMatrixNAC):
             self._G_cutoff = nac_params["G_cutoff"]
         else:
             self._G_cutoff = (
-                3 * self._num_G_points / (4 * np.pi) / self._pcell.volume
+                3 * self._num_G_points / (4 * np.pi) / abs(self._pcell.volume)
             ) ** (1.0 / 3)
         self._G_list = self._get_G_list(self._G_cutoff)
         if "Lambda" in nac_params:
@@ -795,7 +795,7 @@ class DynamicalMatrixGL(DynamicalMatrixNAC):
 
         pos = self._pcell.positions
         num_atom = len(pos)
-        volume = self._pcell.volume
+        volume = abs(self._pcell.volume)
         dd = np.zeros((num_atom, 3, num_atom, 3), dtype=self._dtype_complex, order="C")
 
         if self._with_full_terms:
@@ -1056,7 +1056,7 @@ class DynamicalMatrixWang(DynamicalMatrixNAC):
                 q_cart = np.dot(q_direction, self._rec_lat.T)
 
             constant = self._get_constant_factor(
-                q_cart, self._dielectric, self._pcell.volume, self._unit_conversion
+                q_cart, self._dielectric, abs(self._pcell.volume), self._unit_conversion
             )
             num_atom = len(self._pcell)
             fc_backup = self._force_constants.copy()
